@@ -61,6 +61,18 @@ func init() {
 			if nmax < 0 {
 				// quick tier: a selection guided by the calibration file
 				lens = selectLengths(calib[t], -nmax)
+				if calibHeavy[t] {
+					// heavy types (containers with symbolic child headers, count-driven boxes):
+					// short lengths and the first two success lengths only
+					var keep []int
+					for _, n := range lens {
+						first := len(calib[t]) > 0 && (n == calib[t][0] || (len(calib[t]) > 1 && n == calib[t][1]))
+						if n <= 16 || first {
+							keep = append(keep, n)
+						}
+					}
+					lens = keep
+				}
 			} else {
 				for n := 0; n <= nmax; n++ {
 					lens = append(lens, n)
@@ -169,7 +181,32 @@ func init() {
 		Patterns: []string{"./mp4"},
 		InitPkgs: []string{mod + "/mp4"},
 		Instances: func(tier string, L *Loaded) []*HarnessCfg {
-			r := boxInstances(L, "VerifC04Box", tierN(tier, -64, 48), tierW(tier, 3, 20), [][]string{{"false", "false"}, {"false", "true"}}, true)
+			// exact header, symbolic body (both decode paths); Info at every level only in the thorough tier
+			lv := "false"
+			if tier == "thorough" {
+				lv = "true"
+			}
+			r := boxInstances(L, "VerifC04Box", tierN(tier, -64, 48), tierW(tier, 3, 20), [][]string{{"false", "false", "false", lv}, {"false", "true", "false", lv}}, true)
+			// symbolic size field / largesize over a few body lengths
+			var symN []int
+			if tier == "thorough" {
+				symN = []int{0, 4, 8, 12, 16, 24, 32}
+			} else {
+				symN = []int{8, 16}
+			}
+			types := append(registeredBoxTypes(L, "decodersSR"), "zzzz")
+			for _, t := range types {
+				for _, n := range symN {
+					for _, v := range [][]string{{"false", "false", "true"}, {"false", "true", "true"}, {"true", "false", "true"}} {
+						if tier != "thorough" && v[0] == "true" && n != 8 {
+							continue
+						}
+						c := inst(mod+"/mp4", "VerifC04Box", append(append([]string{t, itoa(n)}, v...), lv)...)
+						c.MaxWallS = tierW(tier, 3, 20)
+						r = append(r, c)
+					}
+				}
+			}
 			for _, c := range r {
 				c.StepBudget, c.StepsPerByte, c.StepIsViol = 100000, 4000, true
 				c.AllocBudget, c.AllocPerByte, c.AllocIsViol = 1<<20, 64, true
@@ -464,6 +501,8 @@ func registeredBoxTypes(L *Loaded, table string) []string {
 
 var verifDir = "/verif"
 
+var calibHeavy = map[string]bool{}
+
 func loadCalib() map[string][]int {
 	data, err := os.ReadFile(filepath.Join(verifDir, "calib", "box_lengths.json"))
 	if err != nil {
@@ -471,9 +510,13 @@ func loadCalib() map[string][]int {
 	}
 	var c struct {
 		Lengths map[string][]int `json:"lengths"`
+		Heavy   []string         `json:"heavy"`
 	}
 	if json.Unmarshal(data, &c) != nil {
 		return map[string][]int{}
+	}
+	for _, h := range c.Heavy {
+		calibHeavy[h] = true
 	}
 	return c.Lengths
 }
@@ -481,7 +524,7 @@ func loadCalib() map[string][]int {
 // selectLengths picks the body lengths of the quick tier for one box type: the first success
 // lengths known from calibration, two later ones, and a few short lengths for the error paths.
 func selectLengths(succ []int, max int) []int {
-	set := map[int]bool{0: true, 8: true}
+	set := map[int]bool{0: true, 4: true, 8: true, 12: true, 16: true, 20: true, 24: true}
 	for i, n := range succ {
 		if n > max {
 			break
